@@ -53,6 +53,12 @@ def oracle(policy, actions, recs, snap):
                     f'tasks {mic["alive_at_exit"]} that the group had accepted (adds attempted at '
                     f'every loop iteration while the join was finishing: accepted {mic["accepted"]}) '
                     f'were still running when join returned'))
+    sj = snap.get('second_join')
+    if sj and sj['finished'] and sj['alive']:
+        bad.append(('c09:member-alive-at-second-join-exit',
+                    f'a join() called by another task while the first join was {sj["first_join"]} '
+                    f'(its task done: {sj["first_done"]}) finished although tasks {sj["alive"]} of '
+                    f'the group were still running'))
     if str(snap.get('add_after_join', '')).startswith('accepted'):
         bad.append(('c09:add-after-join', 'a task was accepted by a group whose join completed: '
                     + snap['add_after_join']))
@@ -201,6 +207,13 @@ def evaluate(ctx, runs, res, oracle_fn, tag):
         res.count('spawn_refused', sum(o.startswith('sr') for o in allobs))
         res.count('next_done_blocked', sum(o.startswith('nb') for o in allobs))
         res.count('policy_' + pol)
+        sj = snap.get('second_join')
+        if sj:
+            res.count('second_join_probes')
+            res.count('second_join_finished_with_everyone_done' if sj['finished'] else
+                      'second_join_still_waiting_for_members')
+            if sj['first_done']:
+                res.count('second_join_after_first_was_cut_short')
         res.count('joiner_cancelled', sum(a[0] == 'K' for a in acts))
         # progress clause: how often its hypotheses were met (and how the traces end)
         res.count('traces_drained_to_all_members_done' if snap.get('drained') else
